@@ -124,12 +124,12 @@ func main() {
 	for _, id := range props {
 		pi := rules.PropByID(id)
 		extra := map[string]any{
-			"packages_loaded":   len(p.Initial),
-			"module_functions":  len(p.ModFuncs),
-			"call_graph":        map[bool]string{false: "CHA", true: "VTA over CHA"}[thorough],
-			"repo":              abs,
-			"not_decided":       pi.NotDecided,
-			"seeded_mutants":    nil,
+			"packages_loaded":  len(p.Initial),
+			"module_functions": len(p.ModFuncs),
+			"call_graph":       map[bool]string{false: "CHA", true: "VTA over CHA"}[thorough],
+			"repo":             abs,
+			"not_decided":      pi.NotDecided,
+			"seeded_mutants":   nil,
 		}
 		if thorough && !*noSelf {
 			st := selfTest(*verif, abs, id)
